@@ -27,7 +27,8 @@ REQUIRED = ["route.list", "route.one-by-one", "route.scenario", "route.xml", "ro
             "contract.find_lanelet_by_shape/Circle", "contract.find_lanelet_by_shape/Polygon", "point.vertex",
             "point.edge-mid", "shape-coherence.Circle", "shape-coherence.Rectangle", "shape-coherence.Polygon",
             "shape-coherence.ShapeGroup", "get_obstacles", "map_obstacles_to_lanelets", "contains_points",
-            "kind.adjacent", "kind.crossing", "kind.nested"]
+            "kind.adjacent", "kind.crossing", "kind.nested", "provenance.placed-angle-0", "provenance.placed",
+            "provenance.translate_rotate", "provenance.deepcopy"]
 ASSUMPTIONS = ["lanelet polygons are simple (strips with strictly increasing abscissa)",
                "circle queries within 0.2% of the radius of a boundary are not judged (shapely discs are 64-gons)"]
 SHARDS = {"quick": 4, "thorough": 16}
@@ -240,6 +241,23 @@ def run(ctx):
         G = Gen(rng)
         kind = ["Rectangle", "Circle", "Polygon", "ShapeGroup"][i % 4]
         shp = {"Rectangle": G.rectangle, "Circle": G.circle, "Polygon": G.polygon, "ShapeGroup": G.shape_group}[kind]()
+        # provenance: shapes reach users as constructed objects, as occupancies (rotate_translate_local, also with angle
+        # exactly 0.0), as transformed or copied objects; the same coherence is demanded of every one of them
+        prov = ["constructed", "placed-angle-0", "placed", "translate_rotate-angle-0", "translate_rotate",
+                "deepcopy"][(i // 4) % 6]
+        try:
+            tr = np.array([rng.uniform(-40, 40), rng.uniform(-40, 40)])
+            if prov.startswith("placed"):
+                shp = shp.rotate_translate_local(tr, 0.0 if prov.endswith("0") else rng.uniform(-3, 3))
+            elif prov.startswith("translate_rotate"):
+                shp = shp.translate_rotate(tr, 0.0 if prov.endswith("0") else rng.uniform(-3, 3))
+            elif prov == "deepcopy":
+                import copy
+                shp = copy.deepcopy(shp)
+        except Exception as e:  # noqa
+            ctx.violation("C06/%s/%s/raises-%s" % (kind, prov, type(e).__name__), repr(e)[:200], {"kind": kind})
+            continue
+        ctx.feature("provenance." + prov)
         d = geom.describe(shp)
         ctx.evaluation()
         ctx.feature("shape-coherence." + kind)
